@@ -34,7 +34,7 @@ func TestC15(t *testing.T) {
 		"privacy of slices returned by Batch.Get is not asserted (the statement names Get)",
 		"the last 24 slices returned by Get are retained and re-compared after every step")
 	defer finishProperty(st)
-	rapid.Check(t, func(t *rapid.T) {
+	checkCases(t, st, func(t *rapid.T) {
 		runHistoryCase(t, "C15", c15Profile, func(r *kvh.Runner) bool { return r.F.Muts >= 2 && r.Poison != nil && r.Poison.Reuses >= 3 })
 	})
 }
